@@ -156,6 +156,8 @@ pub struct Scenario {
     pub global: Vec<GlobalOp>,
     #[serde(default)]
     pub peer: Option<crate::peer::PeerScript>,
+    #[serde(default)]
+    pub attack: Option<crate::attack::AttackScript>,
     /// Virtual-time cap for the scripted part.
     pub script_cap_ms: u64,
     /// Virtual time to keep running after the script finished (or the cap was hit).
